@@ -15,13 +15,22 @@ def run(item):
     cls, P, h = item["cls"], item["P"], item["h"]
     with contextlib.redirect_stdout(io.StringIO()):      # the classes print advice for edge parameters (mu = 0, ...)
         pep, f, part, exc = cc.replay(cls, P, h, names=item.get("names", "none"))
-        if not exc:
+        if not exc and item.get("via_pep") and f.list_of_points:
+            # the class constraints as a SOLVE generates them (pep.py decides for which functions, in which order with
+            # the partitions): any metric will do, the outcome of the solve itself is not looked at
+            try:
+                pep.set_performance_metric(f.list_of_points[0][0] ** 2)
+                pep.solve(verbose=0, solver="CLARABEL")
+            except Exception:
+                pass
+        elif not exc:
             try:
                 f.set_class_constraints()
             except Exception as e:      # observation
                 exc = "%s@set_class_constraints" % type(e).__name__
     out = cc.project(cls, P, h, f, part, exc, names=item.get("names", "none"))
     out["kind"] = "cons"
+    out["via_pep"] = 1 if item.get("via_pep") else 0
     out["pi"] = item.get("pi", 0)
     return out
 
